@@ -207,6 +207,8 @@ def group_rule(ctx, scs, rejected):
 def _jsonable(sc):
     o = dict(sc)
     o["stream"] = list(sc["stream"])
+    if o.get("prior_stream") is not None:
+        o["prior_stream"] = list(o["prior_stream"])
     return o
 
 
@@ -220,11 +222,15 @@ class Fam:
         self.out = []
 
     def add(self, stream, calls, cuts=(), timeouts=(), end="eof", fireCont=False, skipUtf8=False,
-            max_calls=None, via_connect=False, nonblocking=False):
+            max_calls=None, via_connect=False, nonblocking=False, prior=None, head_chunk=None):
         self.n += 1
         # configuration beyond the receive properties' own flags: trace logging on (every received frame is
         # re-formatted for the log) and the lock-free single-thread configuration - neither may change a result
         extra = {"trace": self.n % 5 == 0, "nolock": self.n % 7 == 0}
+        if prior is not None:
+            extra["prior_stream"] = bytes(prior)
+        if head_chunk:
+            extra["head_chunk"] = head_chunk
         nfr = len(wire_frames_guess(stream))
         self.out.append(dict(tid="%s%d" % (self.prefix, self.n), stream=bytes(stream), calls=[list(c) for c in calls],
                              cuts=cuts if cuts == "every" else sorted(cuts), timeouts=sorted(timeouts), end=end,
@@ -284,6 +290,12 @@ def fam_decode(rng, tier):
         cuts = () if mode == 0 else "every" if (mode == 1 and len(stream) < 80) else header_boundaries(frames)
         api = rng.choice([["recv_frame", False]] * 3 + [["recv_data_frame", True]])
         f.add(stream, [api], cuts=cuts, max_calls=k + 3, via_connect=(i % 9 == 0))
+        if i % 12 == 0:
+            # the same object has been through an earlier connection that ended inside a frame / inside a message
+            whole = wire.sframe(B, b"abcdef")
+            prior = rng.choice([whole[:1], whole[:2], whole[:5], wire.sframe(T, b"a", 0), wire.sframe(B, b"x" * 200)[:3],
+                                wire.sframe(T, b"done") + whole[:4]])
+            f.add(stream, [api], cuts=cuts, max_calls=k + 3, prior=prior)
     # extended length forms and non-minimal encodings
     ext = [(126, None), (127, None), (300, None), (65535, None), (5, 2), (125, 2), (0, 2), (5, 8), (300, 8), (0, 8)]
     big = [(65536, None), (65537, None), (70000, None)]
@@ -317,7 +329,8 @@ def compositions(n, maxparts):
     return out
 
 
-TEXTS = [b"", b"a", b"ab", "é".encode(), "aé".encode(), "€".encode(), "\U0001f600".encode(), b"abcd", "éa€".encode()[:4]]
+TEXTS = [b"", b"a", b"ab", "é".encode(), "aé".encode(), "€".encode(), "\U0001f600".encode(), b"abcd", "éa€".encode()[:4],
+         "\ufeff".encode(), "\ufeffz".encode()]        # (a leading U+FEFF is part of the message like any other character)
 
 
 def fam_fragments(rng, tier, apis=None):
@@ -456,6 +469,9 @@ def fam_utf8(rng, tier):
     good = [s.encode() for s in SEEDS if s]
     for txt in good + BAD + [g + b for g in good[:4] for b in BAD[:8]]:
         cutsets = [[]] + [[k] for k in range(1, len(txt))] + ([[1, 2]] if len(txt) > 2 else [])
+        if txt:
+            # empty fragments: first, last, and between two halves of a character
+            cutsets += [[0], [len(txt)], [1, 1]] if len(txt) > 1 else [[0], [len(txt)]]
         for cs in cutsets:
             pts = [0] + cs + [len(txt)]
             seq = [wire.sframe(T if i == 0 else C, txt[pts[i]:pts[i + 1]], fin=1 if i == len(pts) - 2 else 0)
@@ -547,6 +563,10 @@ def fam_segmentation(rng, tier):
             for p, q in pairs:
                 f.add(stream, [api], cuts=rng.choice([(), "every"]), timeouts=[p, q], end="eof", max_calls=len(frames) + 5,
                       via_connect=rng.random() < 0.1)
+    # the handshake response itself arrives in pieces of 1, 2, 3, 7 bytes (frames follow in the same flow)
+    for frames in shorts[:6]:
+        for hc in (1, 2, 3, 7):
+            f.add(b"".join(frames), [rng.choice(MSG_APIS)], cuts=rng.choice([(), "every"]), via_connect=True, max_calls=len(frames) + 3, head_chunk=hc)
     # non-blocking transport (settimeout(0)): "would block" at every byte position, the caller retries
     for frames in shorts[:5]:
         stream = b"".join(frames)
